@@ -445,6 +445,43 @@ def get_values_case(ctx, rng):
                       site="get_values")
 
 
+def huge_intprod(ctx, ub):
+    """bounds beyond the precision of float log2 (structural, nothing is solved): the LP tie, and an oracle written from the
+    property text - 'for every admissible value pair': the binary expansion must be able to write every integer 0..ub, and
+    must not have more bits than the least number that can"""
+    sw = new_sw(ctx.fp)
+    n = sw.add_variables([0], "n", 0, ub, "integer")
+    c = sw.add_variables([0], "c", 0, 1, "continuous")
+    p = sw.add_variables([0], "p", 0, 10 ** 6, "continuous")
+    inp = {"helper": "intprod.huge", "lb": "0", "ub": int(ub)}
+    try:
+        sw.add_integer_continuous_product_constraint(n[0], c[0], p[0], 0, ub, "q")
+    except Exception as e:
+        # HiGHS refuses matrix values >= 1e15 (large_matrix_value): from ub = 1e15 on the McCormick coefficient ub (and from 2^50 on the
+        # top coefficient 2^(bits-1)) cannot be stored, and a loud refusal admits no wrong assignment. Below that a refusal is a violation.
+        if ub >= 10 ** 15 or 2 ** (int(ub).bit_length() - 1) >= 10 ** 15:       # ub itself is a McCormick coefficient
+            ctx.rep.count("K2.intprod.huge", inp, nontrivial=True, hist=["refused: coefficient >= 1e15 (HiGHS large_matrix_value)"])
+            return
+        ctx.violation(f"add_integer_continuous_product_constraint raised {type(e).__name__}: {e} for ub={ub}", inp,
+                      site="add_integer_continuous_product_constraint.num_bits")
+        return
+    impl = helper_dump(sw, {"n0", "c0", "p0"})
+    bits = len([l for l in impl if l.startswith("col binary_")])
+    model = lpdump.from_driver(ctx.driver.call({"op": "lp.intprod", "lb": "0", "ub": int(ub), "name": "q"}))
+    ctx.rep.count("K2.intprod.huge", inp, nontrivial=True, hist=[f"ub~2^{int(ub).bit_length() - 1}", f"bits={bits}"])
+    ctx.rep.cov["traces_validated_against_impl"] += 1
+    if impl != model:
+        ctx.disagree("K2.intprod.huge", inp, lpdump.diff(impl, model), None)
+    ctx.rep.cov["oracle_evaluations"] += 1
+    if 2 ** bits - 1 < int(ub):
+        ctx.violation(f"integer product helper with ub={ub} creates {bits} bits: the admissible value {ub} of the integer "
+                      f"variable cannot be written (largest representable {2 ** bits - 1})", inp,
+                      site="add_integer_continuous_product_constraint.num_bits")
+    elif bits > 0 and 2 ** (bits - 1) - 1 >= int(ub):
+        ctx.violation(f"integer product helper with ub={ub} creates {bits} bits, one more than needed: not the documented "
+                      f"encoding", inp, site="add_integer_continuous_product_constraint.num_bits")
+
+
 def bound_pairs(rng, n):
     ubs = [0, 1, 2, 3, 4, 5, 7, 8, 9, 15, 16, 17, 31, 33, 100, 255, 256, 1000]
     out = [(0, u) for u in ubs]
@@ -464,6 +501,12 @@ def run(ctx):
             nval = rng.randint(0, ub)
             cval = Fraction(rng.randint(0, 4 * ub), 4) if ub else Fraction(0)
             oracle_intprod(ctx, 0, ub, nval, min(cval, Fraction(ub)))
+    ks = [30, 31, 32, 47, 48, 49, 50, 52, 53, 54, 60, 62, 63, 64] if ctx.quick() else list(range(20, 70))
+    for k in ks:
+        for d in (-1, 0, 1, rng.randint(2, 2 ** (k - 2))):
+            huge_intprod(ctx, 2 ** k + d)
+    for ub in (10 ** 15 - 1, 10 ** 15, 10 ** 15 + 1, 6 * 10 ** 14, rng.randint(2 ** 49, 10 ** 15 - 1)):
+        huge_intprod(ctx, ub)
     for _ in range(ctx.n(80, 800)):
         ub = Fraction(rng.choice([0, 1, 2, 5, 9, 13, 64, 1000]) * rng.choice([1, 1, 2]), rng.choice([1, 1, 2, 4]))
         k2_binprod(ctx, 0, ub)
@@ -523,6 +566,8 @@ def replay(ctx, payload):
     elif inp.get("helper") == "piecewise":
         rs = [(Fraction(a), Fraction(b)) for a, b in inp["ranges"]]
         oracle_piecewise(ctx, rs, [Fraction(c) for c in inp["constants"]], inp["range_index"], Fraction(inp["x"]))
+    elif inp.get("helper") == "intprod.huge":
+        huge_intprod(ctx, int(inp["ub"]))
     elif inp.get("helper") == "intprod":
         oracle_intprod(ctx, 0, inp["ub"], inp["n"], Fraction(inp["c"]))
     elif inp.get("helper") == "binprod":
